@@ -8,7 +8,7 @@ import DdoModel.Proofs.CacheClosedRestr
 `process_one_node` when they consult a cache (`cfg.useCache = true`, any content):
 
 * `ub_contract_of_model`, `fresh_contract_of_model`, `exactCut_contract_of_model` — the three fields that were only stated
-  in `Props/C09b.lean` (`CompCRest`), from `Proofs/CacheClosedCut.lean`;
+  in `Props/C09b.lean` ("what is not proved in this file"), from `Proofs/CacheClosedCut.lean`;
 * `compC_relaxed_of_model` — all eleven fields for the `must` result of a relaxed compilation (`sound` from
   `isSol_relaxed_cached`: the exact-best-path argument `G2` survives `_filter_with_cache`; `good`, `sub`, `deeper`, `rng` from
   C08 (i)/(ii), which never depended on the cache);
